@@ -62,3 +62,84 @@ Proof.
   - destruct (H3 eq_refl) as (E3 & V3). do 3 (gstep; rewrite ?D, ?Dn; cbn).
     rewrite E3. destruct ev3; try contradiction; do 3 gstep; reflexivity.
 Qed.
+
+Lemma exec_one_assign st o st' : is_assign o = true -> X86Proofs.exec_ops st [o] = Ok st' -> exists ev, exec_op st o = Ok (st', ev) /\ ev_ok ev.
+Proof.
+  destruct o; try discriminate. intros _. cbn [X86Proofs.exec_ops exec_op]. destruct (den (st_env st) src) as [v| |]; cbn [bind fst]; try discriminate.
+  intros H. inversion H. eexists. split; [reflexivity|exact I].
+Qed.
+
+(* writing a register's own value back changes nothing (sub-register kinds that do not zero-extend) *)
+Lemma arch_write_read_id sd fb x : shape_valid fb sd -> sd <> ShLow32 -> sd <> ShHigh8 -> 0 <= x < 2 ^ fb ->
+  arch_write sd fb x (arch_read sd fb x) = x.
+Proof.
+  intros [[->| ->] _] N1 N2 Hx; destruct sd; try congruence; unfold arch_write, arch_read, X86.reg_write, X86.reg_read, X86.rget, X86.rset, X86.lset;
+    cbn [shape_bits Z.to_nat nth Z.ltb Z.compare Pos.compare Pos.compare_cont]; try (rewrite Z.mod_small by lia; reflexivity);
+    cbn; lia.
+Qed.
+
+Lemma from_diamond addr c ops2 : from_function (mkfunc addr (diamond addr c ops2) None) = Some (Ok (LInstr 0 0)).
+Proof. reflexivity. Qed.
+Lemma from_diamond4 addr c ops2 ops3 : from_function (mkfunc addr (diamond4 addr c ops2 ops3) None) = Some (Ok (LInstr 0 0)).
+Proof. reflexivity. Qed.
+
+(* cmovcc r, r (14 condition codes) *)
+Theorem cmov_sim m addr len c sz dst src :
+  cc_no_pf c = true -> reg_operand_ok m sz (OReg dst) -> reg_operand_ok m sz src -> width_ok sz -> sz <> 8 ->
+  sim m addr len (ICmov c sz dst src).
+Proof.
+  intros Hn Hd Hsrc Hwd H8 s st s' ip Hw He Hstep.
+  unfold step in Hstep. destruct (cond c (x_fl s)) as [b|] eqn:Hc; [|discriminate].
+  destruct (cc_condition_emb m s st c b He Hn Hc) as (e & Ce & Be & De).
+  destruct (reg_operand_shape m sz (OReg dst) Hd) as (sd & Hs & Hr & Hi).
+  destruct (reg_operand_shape m sz src Hsrc) as (sds & Hss & Hrs & His).
+  destruct (reg_expr_facts m sz src s st sds Hw He Hsrc Hss) as (rhs & Os & Br & Cr & Mr & Hv & Dr).
+  destruct (reg_expr_facts m sz (OReg dst) s st sd Hw He Hd Hs) as (dex & Od & Bd & Cd & Md & Hdv & Dd).
+  pose proof (rd_reg_operand m sz src s sds His Hss) as Rs. pose proof (rd_reg_operand m sz (OReg dst) s sd Hi Hs) as Rd.
+  set (v := arch_read sds (wordsz m) (rget (x_gpr s) (oreg src))) in *.
+  set (dv := arch_read sd (wordsz m) (rget (x_gpr s) (oreg (OReg dst)))) in *.
+  rewrite Rs in Hstep. cbn [obind] in Hstep. cbn [rd_op] in Rd. inversion Rd as [Rdv]. rewrite Rdv in Hstep.
+  destruct (assign_reg_exec m s st (OReg dst) sz sd rhs v Hw He Hr Hi Hs Br Hv Dr) as (o1 & Hops1 & Ia1 & st1 & g1 & Hex1 & Hwr1 & Hemb1 & Hwf1).
+  destruct (exec_one_assign st o1 st1 Ia1 Hex1) as (ev1 & E1 & V1).
+  destruct (assign_reg_exec m s st (OReg dst) sz sd dex dv Hw He Hr Hi Hs Bd Hdv Dd) as (o3 & Hops3 & Ia3 & st3 & g3 & Hex3 & Hwr3 & Hemb3 & Hwf3).
+  destruct (exec_one_assign st o3 st3 Ia3 Hex3) as (ev3 & E3 & V3).
+  assert (Osrc: opl m sz src = Ok ([], rhs)) by (rewrite (opl_nonmem m sz src) by (destruct src; try discriminate His; reflexivity); rewrite Os; reflexivity).
+  assert (Ost1: ost m sz (OReg dst) rhs = Ok [o1]) by exact Hops1.
+  assert (Ost3: ost m sz (OReg dst) dex = Ok [o3]) by exact Hops3.
+  destruct ((match m with M64 => true | M32 => false end) && (sz =? 32)) eqn:Z32.
+  - (* long mode, 32-bit destination: both arms write the destination *)
+    exists (diamond4 addr e [o1] [o3]). split.
+    { unfold mirror_instr. rewrite His. cbn [orb]. unfold lift_cmov. rewrite Ce. cbn [bind]. rewrite Osrc. cbn [bind fst snd]. rewrite Ost1. cbn [bind].
+      rewrite Z32, Od. cbn [bind]. rewrite Ost3. cbn [bind app]. reflexivity. }
+    assert (Run: il_run 600 (mkfunc addr (diamond4 addr e [o1] [o3]) None) (LInstr 0 0) st = ILFin (if b then st1 else st3) None).
+    { apply (run_diamond4_11 addr e o1 o3 st st1 ev1 st3 ev3 b De); intros _; auto. }
+    destruct b; [rewrite Hwr1 in Hstep|rewrite Hwr3 in Hstep]; inversion Hstep; subst s' ip; eexists; (split; [|split; eassumption]);
+      unfold run_instr; rewrite from_diamond4, Run; reflexivity.
+  - (* the condition is false: nothing is written *)
+    exists (diamond addr e [o1]). split.
+    { unfold mirror_instr. rewrite His. cbn [orb]. unfold lift_cmov. rewrite Ce. cbn [bind]. rewrite Osrc. cbn [bind fst snd]. rewrite Ost1. cbn [bind].
+      rewrite Z32. reflexivity. }
+    assert (Run: il_run 600 (mkfunc addr (diamond addr e [o1]) None) (LInstr 0 0) st = ILFin (if b then st1 else st) None).
+    { apply (run_diamond_1 addr e o1 st st1 ev1 b De E1 V1). }
+    destruct b.
+    + rewrite Hwr1 in Hstep. inversion Hstep; subst s' ip. eexists. split; [|split; eassumption]. unfold run_instr. rewrite from_diamond, Run. reflexivity.
+    + rewrite Hwr3 in Hstep. inversion Hstep; subst s' ip. exists st. split; [unfold run_instr; rewrite from_diamond, Run; reflexivity|].
+      (* the state with the register's own value written back embeds in the unchanged IL state *)
+      destruct (wr_reg_operand m sz (OReg dst) s sd dv Hi Hw Hr Hs) as (g' & Wr & Lg & Gv & Go). rewrite Wr in Hwr3. assert (Eg3: g3 = g') by (inversion Hwr3; reflexivity). rewrite Eg3 in *. clear Eg3.
+      assert (Nsh: sd <> ShLow32 /\ sd <> ShHigh8).
+      { cbn [operand_shape] in Hs. destruct (size_shape m sz) as [sd'|] eqn:Q; cbn [option_map] in Hs; [|discriminate]. inversion Hs; subst sd'.
+        unfold size_shape in Q. destruct (sz =? wordsz m); [inversion Q; split; discriminate|]. destruct (sz =? 8); [inversion Q; split; discriminate|].
+        destruct (sz =? 16); [inversion Q; split; discriminate|]. destruct m; cbn in Z32, Q.
+        - destruct (sz =? 32); cbn in Z32, Q; discriminate.
+        - destruct (sz =? 32); cbn in Q; discriminate. }
+      destruct (operand_shape_xreg _ _ _ _ _ Hs) as (_ & Vd & _).
+      assert (Gd: rget g' (oreg (OReg dst)) = rget (x_gpr s) (oreg (OReg dst))).
+      { rewrite Gv. apply arch_write_read_id; [exact Vd|tauto|tauto|apply (wf_rng _ _ Hw); exact Hr]. }
+      assert (Gall: forall r', 0 <= r' -> rget g' r' = rget (x_gpr s) r').
+      { intros r' Hr'. destruct (Z.eq_dec r' (oreg (OReg dst))) as [->|N]; [exact Gd|apply Go; assumption]. }
+      split.
+      * constructor; cbn [set_gpr x_gpr x_fl x_mem]; try (apply He).
+        intros r' Hr'. rewrite Gall by lia. apply (emb_gpr _ _ _ He). exact Hr'.
+      * constructor; cbn [set_gpr x_gpr x_mem]; [rewrite Lg; apply (wf_len _ _ Hw)| |apply (wf_bytes _ _ Hw)].
+        intros r' Hr'. rewrite Gall by lia. apply (wf_rng _ _ Hw). exact Hr'.
+Qed.
